@@ -225,3 +225,65 @@ _add(
     technique=('deterministic simulation: seeded nestings and call histories '
                'against an executable functools.partial reference, replay'),
 )
+
+_HEAP_RVS = REAL + ('stub: configured callables; model heap (MNode graph + '
+                    'TagModel)')
+_add(
+    'C07', machine='heap', level='exploration',
+    tiers={'quick': {'count': 16000, 'budget_s': 40},
+           'thorough': {'count': 800000, 'budget_s': 780}},
+    rule=('a heap of live configurations; ops: new, copy.copy, deepcopy, '
+          'pickle round trip, cast, copy_with, deepcopy_with of any live '
+          'config, then attribute/index/slice edits and tag edits on ANY node '
+          'of ANY live config (values may reference nodes of other live '
+          'configs), build; after every op the joint canon of all live roots is '
+          'compared with the model heap and each (original, copy) pair is '
+          'checked for shared argument dicts / tag sets / history lists; '
+          'non-trivial = >= 3 state-changing ops; distinct = distinct case hash'),
+    real_vs_stub=_HEAP_RVS,
+    assumptions=['a mismatch confined to the edited node itself is C03 '
+                 'territory and discards the run (counted)',
+                 'values that would create a reference cycle are skipped'],
+    required_probes=['copies', 'edit_after_copy', 'tag_edits'],
+    level_text=('seeded search over copy/edit histories on a heap; the joint '
+                'canonical form of all live configurations after every '
+                'operation decides faithfulness, preserved sharing, and that '
+                'no later edit of any copy leaks into another configuration'),
+    design_ref='DESIGN.md 4 (C07)',
+    level_note='trusted: HeapModel (machines/heap.py), ArgModel, canon',
+    technique=('deterministic simulation: seeded copy/edit histories on a heap '
+               'of configurations, lock-step model heap, replay'),
+)
+_add(
+    'C14', machine='heap', level='exploration',
+    tiers={'quick': {'count': 16000, 'budget_s': 40},
+           'thorough': {'count': 800000, 'budget_s': 780}},
+    rule=('heap of live configurations with a tag hierarchy (T0 > T1 > T2, U0); '
+          'ops: add/remove/set/clear tag by name and index (valid and invalid), '
+          'TaggedValue assignment with/without value to keyword / positional / '
+          '**kwargs arguments and inside containers, set_tagged, '
+          'select(tag).replace, list_tags +- superclasses, transports (copy, '
+          'deepcopy, pickle, cast, JSON round trip, build_diff+apply_diff of '
+          'tag edits), build; joint canon incl. every tag set after every op; '
+          'non-trivial / distinct as C07'),
+    real_vs_stub=_HEAP_RVS,
+    assumptions=['set_tagged on a tag that sits on an unset *args position is '
+                 'unspecified (run discarded)',
+                 'select(tag).replace deep-copies the value per site; only '
+                 'immutable replacement values are generated for it',
+                 'iteration of a tag selection belongs to C15 (N/A) and is '
+                 'not asserted'],
+    required_probes=['tag_edits', 'tag_broadcasts',
+                     'tag_broadcast_changed_something', 'transport_json',
+                     'transport_diff_tags', 'list_tags', 'build'],
+    level_text=('seeded search over tag-operation histories; the canon of '
+                'arguments AND tag sets of every reachable node equals the '
+                'model\'s after every operation, which is the frame condition '
+                '"and nothing else changed"; every transport is followed by '
+                'further operations on the transported object'),
+    design_ref='DESIGN.md 4 (C14)',
+    level_note=('trusted: TagModel/ArgModel, canon; one known finding (diffing '
+                'does not support positional arguments)'),
+    technique=('deterministic simulation: seeded tag-operation histories with '
+               'rejected operations, lock-step model, replay'),
+)
